@@ -12,6 +12,8 @@ CONSTANTS
   MaxOps = 3
   MaxFaults = 1
   MaxData = 1
+  MaxLate = 0
+  TocAlts = {}
   IdMod = 255
   Bugs = {"start_on_error"}
   WithSync = FALSE
